@@ -41,11 +41,12 @@ STATE_MEASURE = ('distinct (section id, effective encoding, declared '
                  'line_endings?, indent class, defect kind) tuples')
 
 DEFECTS = ['version_bad', 'version_missing', 'no_length', 'no_newline',
-           'format', 'json', 'le']
+           'format', 'json', 'json_bytes', 'le']
 EXPECT_KIND = {
     'version_bad': ('version',), 'version_missing': ('version',),
     'no_length': ('length',), 'no_newline': ('newline',),
     'format': ('format',), 'json': ('json',), 'le': ('line_endings',),
+    'json_bytes': ('json', 'decode'),
 }
 
 
@@ -107,6 +108,24 @@ def gen_defect(rng, data):
         return ({'kind': 'set_opt', 'section': i, 'key': 'format',
                  'value': rng.choice(['yaml', 'xml', 'JSON', 'json5'])},
                 i, kind)
+    elif kind == 'json_bytes':
+        # metadata whose bytes are not text in the encoding in effect (or,
+        # with no encoding anywhere, in any encoding JSON allows)
+        cands = [j for j in metas if recs[j]['_eff'] in
+                 (None, 'utf-8', 'ascii')]
+
+        if not cands:
+            return None
+
+        i = rng.choice(cands)
+        hs, he, ce = spans[i]
+        k = data.find(b'"', he, ce)
+
+        if k < 0 or k + 1 >= ce:
+            return None
+
+        return ({'kind': 'content_bytes', 'section': i, 'off': k + 1 - he,
+                 'hex': rng.choice(['ff', 'fe', '80', 'c0'])}, i, kind)
     else:
         eff = recs[i]['_eff']
         hs, he, ce = spans[i]
@@ -135,7 +154,8 @@ def generate(rng, tier, cls):
 
     scn = {'actors': [{'id': 'F1', 'kind': 'raw', 'file': 'f1',
                        'foreign': spec}, r],
-           'schedule': [], 'faults': []}
+           'schedule': [], 'faults': [],
+           'noise': pipe.gen_noise(rng, 0.15)}
 
     if cls == 'spec_defect':
         d = gen_defect(rng, R.render_foreign(spec))
@@ -161,6 +181,7 @@ def state_of(rec, defect=None):
 
 def execute(scn, L):
     out = pipe.Outcome()
+    pipe.run_noise(scn, L, out)
     w = pipe.make_world(scn, L)
     w.run()
     out.absorb(w)
